@@ -588,9 +588,57 @@ func c09PassThrough(r *rt.Run) {
 	}
 }
 
+// two DIFFERENT struct types that share their name (function-local types)
+func c09LocalTypeA(w *simio.Writer, r *rt.Run, a, b string) (error, *rt.Task) {
+	type localT struct {
+		First  string `control:"X-First"`
+		Second string `control:"X-Second"`
+	}
+	v := localT{First: a, Second: b}
+	return c09Marshal(r, &v, w)
+}
+
+func c09LocalTypeB(w *simio.Writer, r *rt.Run, a, b, c string) (error, *rt.Task) {
+	type localT struct {
+		Alpha string
+		Skip  string `control:"-"`
+		Beta  string `control:"X-Beta"`
+		Gamma string `control:"X-Gamma"`
+	}
+	v := localT{Alpha: a, Skip: "never written", Beta: b, Gamma: c}
+	return c09Marshal(r, &v, w)
+}
+
 func c09Misc(r *rt.Run) {
 	t := r.T
-	switch t.Draw(3, "c09m.kind") {
+	switch t.Draw(4, "c09m.kind") {
+	case 3: // marshalling one type must not colour how another type of the same name is written
+		order := t.Draw(2, "c09m.order")
+		var outA, outB string
+		for step := 0; step < 2; step++ {
+			w := simio.NewWriter(r, "sink")
+			var err error
+			var task *rt.Task
+			if (step == 0) == (order == 0) {
+				err, task = c09LocalTypeA(w, r, "one", "two")
+				outA = string(w.Buf)
+			} else {
+				err, task = c09LocalTypeB(w, r, "a", "b", "c")
+				outB = string(w.Buf)
+			}
+			if task.Panic != nil {
+				r.Violate("C09/marshal-panics", "same-named-types", "Marshal panicked: %v\n%s", task.Panic, trimStack(task.PanicStack))
+				return
+			}
+			if err != nil {
+				r.Violate("C09/marshal-error", "same-named-types", "%v", err)
+				return
+			}
+		}
+		if outA != "X-First: one\nX-Second: two\n" || outB != "Alpha: a\nX-Beta: b\nX-Gamma: c\n" {
+			r.Violate("C09/roundtrip-mismatch", "same-named-types", "two struct types that share the name localT, marshalled one after the other (order %d), were written as %q and %q", order, outA, outB)
+		}
+		r.Probe("same-named-struct-types")
 	case 2: // every element of a list of custom types decodes as it would alone
 		names := []string{"amd64", "any", "all", "kfreebsd-amd64", "linux-any", "bsd-openbsd-i386", "musl-linux-armhf", "hurd-i386", "gnu-kfreebsd-amd64"}
 		var elems []string
@@ -698,5 +746,5 @@ func init() {
 		},
 		Assumptions: []string{"'optional zero fields are omitted' is demanded for fields whose text form is empty when zero (strings, lists, versions, dependencies); the pinned test suite requires false booleans to be written as 'no', and zero integers are written as '0'", "architecture values are restricted to names whose String() form re-parses to the same value (wildcard and three-part names lose information in Arch.String, which belongs to the not-applicable properties C05/C06)"},
 	})
-	propProbes["C09"] = []string{"uint-above-int64-range", "marshalled-repeatedly", "list-elements-independent", "several-known-fields-cleared", "required-empty-list", "multi-line-string-field", "paragraph-api", "missing-required-field", "unknown-fields-present", "known-field-cleared", "nested-plain-struct", "pointer-fields"}
+	propProbes["C09"] = []string{"same-named-struct-types", "uint-above-int64-range", "marshalled-repeatedly", "list-elements-independent", "several-known-fields-cleared", "required-empty-list", "multi-line-string-field", "paragraph-api", "missing-required-field", "unknown-fields-present", "known-field-cleared", "nested-plain-struct", "pointer-fields"}
 }
